@@ -3,7 +3,6 @@ use crate::il::*;
 use crate::Error;
 use falcon_capstone::capstone;
 use falcon_capstone::capstone_sys::ppc_reg;
-use std::cmp::Ordering;
 
 /// Struct for dealing with x86 registers
 pub struct PpcRegister {
@@ -348,32 +347,18 @@ pub fn rlwinm_(
     mb: u64,
     me: u64,
 ) -> Result<(), Error> {
-    /*
-    - If the MB value is less than the ME value + 1, then the mask bits between
-      and including the starting point and the end point are set to ones. All
-      other bits are set to zeros.
-    - If the MB value is the same as the ME value + 1, then all 32 mask bits are
-      set to ones.
-    - If the MB value is greater than the ME value + 1, then all of the mask
-      bits between and including the ME value +1 and the MB value -1 are set to
-      zeros. All other bits are set to ones.
-    */
-
-    let mask = match mb.cmp(&(me + 1)) {
-        Ordering::Less => {
-            let mb = 32 - mb;
-            let me = 32 - me;
-            let mask = (1 << (mb - me)) - 1;
-            mask << me
-        }
-        Ordering::Equal => 0xffff_ffff,
-        Ordering::Greater => {
-            let mb = 32 - mb;
-            let me = 32 - me;
-            let mask = (1 << (me - mb)) - 1;
-            let mask = mask << mb;
-            mask ^ 0xffff_ffff
-        }
+    // MASK(mb, me): bit 0 is the most-significant bit. Ones from bit mb through
+    // bit me; when mb > me the run of ones wraps around from bit 31 to bit 0,
+    // i.e. all bits from mb on and all bits up to me are set.
+    if mb > 31 || me > 31 {
+        return Err(Error::Custom("Invalid mask for rlwinm".to_string()));
+    }
+    let from_mb: u64 = 0xffff_ffff >> mb;
+    let to_me: u64 = (0xffff_ffff << (31 - me)) & 0xffff_ffff;
+    let mask = if mb <= me {
+        from_mb & to_me
+    } else {
+        from_mb | to_me
     };
 
     let block_index = {
